@@ -297,6 +297,23 @@ func judgeAll(c *core.Ctx, results []modelrig.Result, cfg string, strict bool, p
 			continue
 		}
 		bad[who] = true
+		if cfg != "default" {
+			dir := "/rejects-valid"
+			if genOK {
+				dir = "/accepts-invalid"
+			}
+			if c.HasViolation(keyBase + dir) {
+				continue // same defect as under the default configuration
+			}
+			if !genOK && strings.Contains(r.Ans.UnmarshalErr, "unknown field") {
+				// one root cause: with --strict-additional-properties every struct-backed object
+				// rejects unknown properties, whether or not the schema says additionalProperties:false
+				c.Violation("C02/strict/unknown-property-rejected-where-additionalProperties-is-not-false",
+					fmt.Sprintf("with --strict-additional-properties a document valid for the schema is rejected (%s on %s): %s", jx.Compact(r.Case.Variant.Doc), r.Case.Def, r.Ans.UnmarshalErr),
+					files(fmt.Sprintf("generated: unmarshal=%q\nreference: valid", r.Ans.UnmarshalErr)))
+				continue
+			}
+		}
 		if genOK {
 			c.Violation(keyBase+"/accepts-invalid"+sfx, fmt.Sprintf("generated Validate accepts a document the schema rejects (%s): reference says %s", jx.Compact(r.Case.Variant.Doc), core.OneLine(strings.Join(j.RefErrors, "; "))),
 				files(fmt.Sprintf("generated: accepted\nreference: %v\nzero-paths considered: %v", j.RefErrors, j.ZeroPaths)))
